@@ -763,7 +763,7 @@ func (a *Analysis) CheckSingleRoot() []string {
 			if roots[n.Obj()] == nil {
 				roots[n.Obj()] = map[ssa.Value]bool{}
 			}
-			roots[n.Obj()][normRoot(fa.X)] = true
+			roots[n.Obj()][ir.NormCell(fa.X)] = true
 		})
 		for o, rs := range roots {
 			if len(rs) > 1 {
@@ -775,61 +775,3 @@ func (a *Analysis) CheckSingleRoot() []string {
 	return bad
 }
 
-// normRoot maps reloads of one (captured) variable to one representative, and
-// a variable assigned exactly once to the value assigned.
-func normRoot(v ssa.Value) ssa.Value {
-	for i := 0; i < 8; i++ {
-		u, ok := v.(*ssa.UnOp)
-		if !ok || u.Op != token.MUL {
-			return v
-		}
-		cell := u.X
-		if fv, ok := cell.(*ssa.FreeVar); ok {
-			if b := bindingOf(fv); b != nil {
-				cell = b
-			} else {
-				return fv
-			}
-		}
-		al, ok := cell.(*ssa.Alloc)
-		if !ok {
-			return cell
-		}
-		sts := ir.CellStores(al)
-		if len(sts) != 1 {
-			return al
-		}
-		v = sts[0].Val
-	}
-	return v
-}
-
-func bindingOf(fv *ssa.FreeVar) ssa.Value {
-	f := fv.Parent()
-	par := f.Parent()
-	if par == nil {
-		return nil
-	}
-	idx := -1
-	for i, x := range f.FreeVars {
-		if x == fv {
-			idx = i
-		}
-	}
-	var out ssa.Value
-	for _, b := range par.Blocks {
-		for _, ins := range b.Instrs {
-			if mc, ok := ins.(*ssa.MakeClosure); ok && mc.Fn == f && idx >= 0 && idx < len(mc.Bindings) {
-				bnd := mc.Bindings[idx]
-				if inner, ok := bnd.(*ssa.FreeVar); ok {
-					bnd = bindingOf(inner)
-				}
-				if out != nil && out != bnd {
-					return nil
-				}
-				out = bnd
-			}
-		}
-	}
-	return out
-}
